@@ -30,6 +30,10 @@ def dns_name(ctx):
     class NotEnoughData(NativeError):
         pass
 
+    class InvalidValueError(NativeError):
+        pass
+    InvalidValueError.__name__ = 'InvalidValue'
+
     class Parser(Native):
         def __init__(self, data):
             self.data, self.parsed_length, self.values = bytes(data), 0, {}
@@ -46,7 +50,12 @@ def dns_name(ctx):
             n = int.from_bytes(self.data[self.parsed_length:self.parsed_length + item_size], 'big')
             if have < item_size + n:
                 raise NotEnoughData(item_size + n - have)
-            self.values[name] = self.data[self.parsed_length + item_size:self.parsed_length + item_size + n].decode('ascii')
+            raw = self.data[self.parsed_length + item_size:self.parsed_length + item_size + n]
+            try:
+                # the real codec of the standard library: what it decodes and what it refuses to encode is the subject here
+                self.values[name] = raw.decode(encoding if encoding == 'idna' else 'ascii')
+            except UnicodeError:
+                raise InvalidValueError(name)
             self.parsed_length += item_size + n
 
         def parse_numeric(self, name, size, *a, **k):
@@ -65,7 +74,10 @@ def dns_name(ctx):
 
         def compose_string(self, value, encoding='ascii', item_size=1, *a, **k):
             codecs_used['compose'].add(encoding)
-            raw = value.encode('ascii')
+            try:
+                raw = value.encode(encoding if encoding == 'idna' else 'ascii')
+            except UnicodeError:
+                raise InvalidValueError(value)
             self.out += len(raw).to_bytes(item_size, 'big') + raw
 
         def compose_numeric(self, value, size):
@@ -104,6 +116,7 @@ def dns_name(ctx):
     try:
         for labels in samples:
             wire = b''.join(bytes([len(l)]) + l.encode('ascii') for l in labels) + b'\x00'
+            labels = [l.encode('ascii').decode('idna') for l in labels]         # the text form of an A-label is its U-label
             out['runs'] += 1
             try:
                 got = Evaluator({'self': Name(labels)}, hook, None).function(fc.node)
@@ -127,6 +140,30 @@ def dns_name(ctx):
                 except Raised as e:
                     if 'NotEnoughData' not in e.what:
                         out['problems'].setdefault('parse', 'a truncated name raises %s' % e.what[:60])
+        # wire forms with no text form: whatever the parser lets through has to be composable, to the bytes it was read from
+        out['acceptance'] = {}
+        for wire, what, key in ((bytes([64]) + b'a' * 64 + b'\x00', 'a label of 64 octets', 'long-label'), (bytes([200]) + b'b' * 200 + b'\x00', 'a label of 200 octets', 'long-label'),
+                                (b'\x01.\x00', 'a label that is a dot', 'dot-label'), (b'\x03a.b\x00', 'a label with a dot inside', 'dot-label'),
+                                (b'\x02.a\x00', 'a label that starts with a dot', 'dot-label'), (bytes([63]) + b'c' * 63 + b'\x00', 'a label of 63 octets', 'label')):
+            out['runs'] += 1
+            try:
+                made.clear()
+                got = Evaluator({'cls': 'cls', 'parsable': wire}, hook, None).function(fp.node)
+            except Raised:
+                continue
+            labels = made.get('labels', [])
+            try:
+                again = Evaluator({'self': Name(labels)}, hook, None).function(fc.node)
+            except Raised as e:
+                out['acceptance'].setdefault(key, '%s (%s...) is accepted as %r and cannot be composed: %s' % (what, wire[:6].hex(), [l if len(l) < 12 else l[:8] + '...' for l in labels], e.what[:60]))
+                continue
+            try:
+                made.clear()
+                Evaluator({'cls': 'cls', 'parsable': bytes(again)}, hook, None).function(fp.node)
+                if made.get('labels') != labels:
+                    out['acceptance'].setdefault(key, '%s is accepted as %r, composed as %s and read back as %r' % (what, labels, bytes(again)[:12].hex(), made.get('labels')))
+            except Raised as e:
+                out['acceptance'].setdefault(key, '%s is accepted, composed as %s and then refused (%s)' % (what, bytes(again)[:12].hex(), e.what[:60]))
     except Unsupported as e:
         out['why'] = str(e)
         return out
